@@ -1,4 +1,6 @@
 ENGINES = [
+    {"name": "gridmc", "path": "mc/checks", "serves_properties": ["C18"],
+     "kind_free_text": "exhaustive enumeration of finite option lattices / member lists crossed with small branch-covering data alphabets, each point compared with an oracle independent of REBOUND"},
     {"name": "histmc", "path": "mc/histmc.py", "serves_properties": ["C14"],
      "kind_free_text": "explicit-state breadth-first exploration of operation histories on the real library object (state = history, canonical digest de-duplication, reference-model oracle on every transition)"},
 ]
@@ -6,6 +8,15 @@ NOTES = ("All checks explore the real implementation rebuilt from /repo's workin
          "so traces_validated_against_impl equals the number of executed transitions. known_findings.json lists repaired defects (fixed:) and recorded ones.")
 NOT_APPLICABLE = {}
 CHECKS = {
+    "C18": {
+        "engine": "gridmc", "category": "exploration",
+        "technique": "exhaustive enumeration of a finite space: every leaf member of every mirrored C structure (DWARF) against the ctypes field at the same offset, and every named option value",
+        "text": "The space is finite and is enumerated completely: ~1700 leaf members of 25 structures (nested structs and arrays flattened) taken from the DWARF of a -g build of the working tree are "
+                "compared by offset, size, kind (float / signed / unsigned / pointer / function pointer) and normalised name with the ctypes field at the same offset; every key of every option dictionary "
+                "(integrator, gravity, collision, boundary, coordinates, kernel, SABA type, EOS phi0/phi1, TRACE peri_mode) is set by name and the raw integer compared with the C enumerator of that name and read back; "
+                "function-valued options are compared with the dlsym address.",
+        "note": "Trusts gdb's rendering of gcc's DWARF and that -O0 -g and -O3 builds share the ABI layout; aliases for deliberately renamed members are listed in the check.",
+    },
     "C14": {
         "engine": "histmc", "category": "model_checking",
         "technique": "explicit-state BFS over operation histories of the real (ASan-built) simulation object against a reference list model",
